@@ -208,12 +208,47 @@ func (vc *VC) val(v ssa.Value) Term {
 		}
 		return Term{S: vc.globalRef(o), Sort: "Int", T: x.Type(), Loc: &Loc{Kind: locGlobal, Global: vc.globalName(o), ElemT: elem}}
 	case *ssa.Function:
+		vc.alwaysFacts(x)
 		return Term{S: vc.funcConst(vc.P.specName(x)), Sort: "Int", T: x.Type()}
 	case *ssa.Builtin:
 		return Term{S: "0", Sort: "Int", T: x.Type()}
 	}
 	vc.failf("use of undefined value %s (%T)", v.Name(), v)
 	return Term{}
+}
+
+// alwaysFacts: a function used as a value whose contract has `always` clauses (postconditions over the
+// result alone): every result it ever returns -- ret(f, n) for every n -- satisfies them.
+func (vc *VC) alwaysFacts(f *ssa.Function) {
+	sp := vc.P.findSpec(f)
+	if sp == nil || vc.alwaysDone[f] || f.Signature.Results().Len() != 1 {
+		return
+	}
+	cls := sp.clauses("always")
+	if len(cls) == 0 {
+		return
+	}
+	if vc.alwaysDone == nil {
+		vc.alwaysDone = map[*ssa.Function]bool{}
+	}
+	vc.alwaysDone[f] = true
+	rt := f.Signature.Results().At(0).Type()
+	fc := vc.funcConst(vc.P.specName(f))
+	rf := vc.retFun(rt)
+	for _, c := range cls {
+		scratch := vc.newState()
+		scratch.epoch = -5000 - len(vc.alwaysDone)
+		e := &Env{vc: vc, st: scratch, old: scratch, vars: map[string]Term{}, pkg: vc.pkgOf(f)}
+		e.vars["result"] = Term{S: sx(rf, fc, "q_n"), Sort: vc.ss().sortOf(rt), T: rt}
+		s, err := e.boolean(c.Expr)
+		if err != nil {
+			panic(execErr(fmt.Sprintf("always clause of %s: %v", sp.Name, err)))
+		}
+		if len(scratch.vals) != 0 {
+			panic(execErr(fmt.Sprintf("always clause of %s reads the state: %s", sp.Name, c.Text)))
+		}
+		vc.preamble = append(vc.preamble, fmt.Sprintf("(assert (forall ((q_n Int)) (! %s :pattern ((%s %s q_n)))))", s, rf, fc))
+	}
 }
 
 func (vc *VC) constVal(c *ssa.Const) Term {
@@ -1218,6 +1253,11 @@ var epochRefRe = regexp.MustCompile(`([A-Za-z_$][A-Za-z0-9_$.]*)@[0-9]+`)
 // every cell of that kind the loop does write is a different allocation or an object of the caller):
 // the load yields the same value in every iteration, namely the cell's content at the loop head.
 func (vc *VC) invariantCellLoad(li *loopInfo, ix string, wr map[string]map[string]bool, st *State) (string, bool) {
+	if m := cellLoadRe.FindStringSubmatch(ix); m != nil && vc.stableCellLoad(li, ix) {
+		if cs, ok := vc.stateSort[m[1]]; ok {
+			return sx("select", vc.get(st, m[1], cs), m[2]), true
+		}
+	}
 	v, ok := vc.staticVals()[ix]
 	if !ok {
 		return "", false
@@ -2039,6 +2079,9 @@ func (vc *VC) exit(st *State, results []Term, guard string, pos token.Pos) {
 		s, err := env.boolean(c.Expr)
 		if err != nil {
 			panic(execErr(vc.clauseErr(c, err).Error()))
+		}
+		if c.Assumed {
+			continue
 		}
 		vc.oblige("ensures", c.label(), c.Props, guard, s, c.Text, pos)
 	}
